@@ -32,7 +32,7 @@ _RESERVED = set(R.MNEMONICS) | {"A", "B", "D", "X", "Y", "U", "S", "CC", "DP", "
 _L1 = "ABCDEFGHIJKLMNOPQRSTUVWXYZabcdefghijklmnopqrstuvwxyz"
 _LN = _L1 + "0123456789"
 _fresh_name = st.builds(lambda a, rest: a + rest, st.sampled_from(_L1), st.text(alphabet=_LN, min_size=0, max_size=9))
-_COMMENTS = [None, "", "c", "set A", "x ; y", "LDA #1", "\"quoted\"", "'q", "a,b+[1]", "   spaced   ", "#$%&*()"]
+_COMMENTS = [None, "", "c", "set A", "x ; y", "LDA #1", "\"quoted\"", "'q", "a,b+[1]", "   spaced   ", "#$%&*()", "read/write \"x\" /y/"]
 _layout = st.fixed_dictionaries(dict(
     ws1=st.sampled_from([" ", "  ", "\t", " \t ", "        "]), ws2=st.sampled_from([" ", "  ", "\t", "\t\t", "   "]),
     ws3=st.sampled_from([" ", "", "\t", "   "]), cmt=st.one_of(st.sampled_from(_COMMENTS), st.text(alphabet=" !#$%&'()*+,-./0123456789:;<=>?@ABCXYZ[]^_abcxyz{|}~", max_size=20)),
@@ -111,8 +111,6 @@ def transform(case):
         lays = []
         for i, s in enumerate(prog["stmts"]):
             lay = dict(T["layouts"][i % len(T["layouts"])])
-            if s["k"] == "fcc" and lay.get("cmt") is not None and s["delim"] in lay["cmt"]:
-                lay["cmt"] = lay["cmt"].replace(s["delim"], "_")
             lays.append(lay)
         return lines, proggen.render(prog, lays), dict()
     if T["kind"] == "suffix":
